@@ -12,7 +12,7 @@ from fractions import Fraction
 
 VERIF = os.path.dirname(os.path.dirname(os.path.abspath(__file__)))
 COQ = os.path.join(VERIF, 'coq')
-REPO = '/repo'
+REPO = os.environ.get('VERIF_REPO', '/repo')
 SRC = os.path.join(REPO, 'src')
 REPLAYS = os.path.join(VERIF, 'replays')
 EVIDENCE = os.path.join(VERIF, 'evidence')
